@@ -55,7 +55,8 @@ def nodeAt : Node → List Nat → Option Node
   | _, _ :: _ => none
 
 def parseLvl (s : String) : Option Int :=
-  if s == "N" then levelOf .none else if s == "T" then levelOf .true else (s.toInt?.map (fun n => levelOf (.int n))).join
+  if s == "N" then levelOf .none else if s == "T" then levelOf .true else if s == "F" then levelOf .false
+  else (s.toInt?.map (fun n => levelOf (.int n))).join
 
 def showEv : Ev → String
   | .start i _ pre => s!"S{i}{if pre then "!" else ""}"
@@ -86,6 +87,134 @@ def runQueries (mode : String) (unit sets nq : String) (rest : List String) : St
   | some (root, []) => " | ".intercalate (qs.map (answer mode (cps unit) root))
   | _ => "bad-tree"
 
+/-! ### the raw layer: pieces computed by the model, receivers, encodings, bytes flavour
+
+    c14 raw <impl|spec> <unit> <vcp> <sets> <nq> <query>*nq <rtree>
+    rtree := S <pre> <suf> <body> | T <id> <soup N|0|1> <hidden> <nsprefix> <name> <attrs> <setidx|N> <cbe> <nkids> rtree*nkids
+    attrs := <default>[;<enc>=<attrstring>]*       enc = N | cps
+    query := <path>/<call>/<lvl N|T|F|int>/<enc D|N|cps>     call = d | c | e | ec | p | tp | tq (canonical plain / pretty tokens)
+    reply per query: cps | e   or   b:<enc>:<cps|e>  for a bytes result -/
+
+def parseAttrs (s : String) : PStr × List (Option PStr × PStr) :=
+  match s.splitOn ";" with
+  | [] => ([], [])
+  | d :: rest =>
+    (cps d, rest.filterMap fun item =>
+      match item.splitOn "=" with
+      | [k, v] => some (if k == "N" then none else some (cps k), cps v)
+      | _ => none)
+
+mutual
+def parseR (sets : List (List PStr)) : Nat → List String → Option (RNode × List String)
+  | 0, _ => none
+  | _ + 1, "S" :: p :: sf :: b :: rest => some (.str (cps p) (cps sf) (cps b), rest)
+  | f + 1, "T" :: i :: sx :: hid :: pf :: nm :: atr :: si :: cbe :: n :: rest =>
+    match parseRKids sets f n.toNat! rest with
+    | some (ks, rest') =>
+      let pwt : Option (List PStr) := if si == "N" then none else some (sets.getD si.toNat! [])
+      let a := parseAttrs atr
+      let info : TagInfo := { id := i.toNat!, soupXml := if sx == "N" then none else some (sx == "1"), hidden := hid == "1",
+                              nsPrefix := cps pf, name := cps nm, attrDefault := a.1, attrBy := a.2, preserveWs := pwt,
+                              canBeEmpty := cbe == "1" }
+      some (.tag info ks, rest')
+    | none => none
+  | _ + 1, _ => none
+def parseRKids (sets : List (List PStr)) : Nat → Nat → List String → Option (List RNode × List String)
+  | 0, _, _ => none
+  | _ + 1, 0, rest => some ([], rest)
+  | f + 1, n + 1, rest =>
+    match parseR sets f rest with
+    | some (k, rest') =>
+      match parseRKids sets f n rest' with
+      | some (ks, rest'') => some (k :: ks, rest'')
+      | none => none
+    | none => none
+end
+
+def rnodeAt : RNode → List Nat → Option RNode
+  | n, [] => some n
+  | .tag _ ks, i :: p => match ks[i]? with
+    | some k => rnodeAt k p
+    | none => none
+  | _, _ :: _ => none
+
+def parseLevelArg (s : String) : LevelArg :=
+  if s == "N" then .none else if s == "T" then .true else if s == "F" then .false else .int (s.toInt?.getD 0)
+
+def parseEnc (s : String) (dflt : Option PStr) : Option PStr :=
+  if s == "D" then dflt else if s == "N" then none else some (cps s)
+
+def showOut : Out → String
+  | .str s => showP s
+  | .bytes e t => s!"b:{showCps e}:{showP t}"
+
+def showToks (ts : List Tok) : String :=
+  if ts.isEmpty then "-" else ";".intercalate (ts.map fun t => match t with
+    | .markup p => "M" ++ showP p
+    | .data d => "D" ++ showP d)
+
+def rawAnswer (spec : Bool) (unit vcp : PStr) (root : RNode) (q : String) : String :=
+  match q.splitOn "/" with
+  | [path, call, lvl, enc] =>
+    match rnodeAt root (if path == "r" then [] else natList "." path) with
+    | none => "bad-path"
+    | some r =>
+      let l := parseLevelArg lvl
+      let isSoup := r.soupXml.isSome
+      let dec := fun (l : LevelArg) (e : Option PStr) (co : Bool) =>
+        if spec then recvSpec unit vcp l e co r else recvDecode unit vcp l e co r
+      if call == "d" then
+        showP (dec l (parseEnc enc (if isSoup then BS.Gen.Pretty.soupDecodeDefaultEnc else BS.Gen.Pretty.tagDecodeDefaultEnc)) false)
+      else if call == "c" then showP (dec l (parseEnc enc BS.Gen.Pretty.tagDecodeContentsDefaultEnc) true)
+      else if call == "e" then
+        match parseEnc enc BS.Gen.Pretty.tagEncodeDefaultEnc with
+        | some e => showOut (if spec then .bytes e (dec l (some e) false) else encodeImpl unit vcp e l r)
+        | none => "type-error"
+      else if call == "ec" then
+        match parseEnc enc BS.Gen.Pretty.tagEncodeContentsDefaultEnc with
+        | some e => showOut (if spec then .bytes e (dec l (some e) true) else encodeContentsImpl unit vcp l e r)
+        | none => "type-error"
+      else if call == "p" then
+        let e := parseEnc enc BS.Gen.Pretty.tagPrettifyDefaultEnc
+        if spec then
+          match e with
+          | none => showOut (.str (dec (.int 0) (if isSoup then BS.Gen.Pretty.soupDecodeDefaultEnc else BS.Gen.Pretty.tagDecodeDefaultEnc) false))
+          | some e => showOut (.bytes e (dec (.int 0) (some e) false))
+        else showOut (prettifyRaw unit vcp e r)
+      else if call == "rc1" || call == "rc0" then
+        match parseEnc enc BS.Gen.Pretty.tagEncodeContentsDefaultEnc with
+        | some e =>
+          showOut (if spec then .bytes e (dec (if call == "rc1" then l else .none) (some e) true)
+                   else renderContentsImpl unit vcp e (call == "rc1") l r)
+        | none => "type-error"
+      else if call == "tp" then showToks (canon (plainToks ⟨parseEnc enc BS.Gen.Pretty.tagDecodeDefaultEnc, vcp⟩ r))
+      else if call == "tq" then
+        showToks (canon (prettyToks ⟨parseEnc enc BS.Gen.Pretty.tagDecodeDefaultEnc, vcp⟩ unit ((levelOf l).getD 0) false r))
+      else "bad-call"
+  | _ => "bad-query"
+
+def runRaw (spec : Bool) (unit vcp sets nq : String) (rest : List String) : String :=
+  let k := nq.toNat!
+  let qs := rest.take k
+  let treeToks := rest.drop k
+  match parseR (parseSets sets) (treeToks.length + 1) treeToks with
+  | some (root, []) => " | ".intercalate (qs.map (rawAnswer spec (cps unit) (cps vcp) root))
+  | _ => "bad-tree"
+
+/-! ### `_event_stream` on the iterator's elements with their parent pointers
+
+    c14 evs <sets> <item>*      item := T <parent> <id> <canBeEmpty> <ncontents> <setidx|N> <name> | S <parent> -/
+def parseItems (sets : List (List PStr)) : Nat → List String → Option (List FItem)
+  | 0, _ => none
+  | _, [] => some []
+  | f + 1, "S" :: p :: rest => (parseItems sets f rest).map (FItem.str p.toNat! [] :: ·)
+  | f + 1, "T" :: p :: i :: cbe :: n :: si :: nm :: rest =>
+    let pwt : Option (List PStr) := if si == "N" then none else some (sets.getD si.toNat! [])
+    -- `is_empty_element`: `len(self.contents) == 0 and self.can_be_empty_element is True`
+    let isEmpty := n.toNat! == 0 && cbe == "1"
+    (parseItems sets f rest).map (FItem.tag p.toNat! i.toNat! isEmpty [] [] (!shouldPrettyPrint pwt (cps nm)) :: ·)
+  | _ + 1, _ => none
+
 def parseIndentArg (s : String) : Option IndentArg :=
   if s == "N" then some .none
   else if s == "o" then some .other
@@ -97,11 +226,26 @@ def handle : List String → String
   | "dec" :: unit :: sets :: nq :: rest => runQueries "dec" unit sets nq rest
   | "spec" :: unit :: sets :: nq :: rest => runQueries "spec" unit sets nq rest
   | "ev" :: unit :: sets :: nq :: rest => runQueries "ev" unit sets nq rest
+  | "raw" :: "impl" :: unit :: vcp :: sets :: nq :: rest => runRaw false unit vcp sets nq rest
+  | "raw" :: "spec" :: unit :: vcp :: sets :: nq :: rest => runRaw true unit vcp sets nq rest
+  | "evs" :: sets :: rest =>
+    match parseItems (parseSets sets) (rest.length + 1) rest with
+    | some items =>
+      let evs := streamImpl [] items
+      if evs.isEmpty then "-" else ",".intercalate (evs.map showEv)
+    | none => "bad-items"
+  | ["xmldecl", x, enc] => showP (xmlDecl (x == "1") (parseEnc enc BS.Gen.Pretty.soupDecodeDefaultEnc))
+  | ["affix", nm] =>
+    match BS.Gen.Pretty.stringAffixes.find? (fun e => e.1 == cps nm) with
+    | some e => s!"{showP e.2.1} {showP e.2.2.1} {bit e.2.2.2}"
+    | none => "unknown"
   | ["indent", a] =>
     match parseIndentArg a with
     | some a => showP (indentOf a)
     | none => "bad-arg"
   | ["strip", s] => showP (strip (cps s))
+  | ["sppat", lvl, set, nm] =>
+    bit (shouldPrettyPrintAt (parseLvl lvl) (if set == "N" then none else some (parseSet set)) (cps nm))
   | ["spp", set, nm] =>
     bit (shouldPrettyPrint (if set == "N" then none else some (parseSet set)) (cps nm))
   | _ => "bad-op"
